@@ -64,15 +64,31 @@ impl Property for C01 {
         }
     }
     fn rule(&self) -> &'static str {
-        "random acyclic graphs (plain, checksummed, always, dynamic, failing-by-flag targets) with \
+        "six runs in ten: random acyclic graphs (plain, checksummed, always, dynamic, failing-by-flag targets) with \
          histories of 2-8 steps (source edits, .do edits, target removals, flag flips, forced redo, \
-         redo-ifchange at -j1..4) under seeded schedules; after every command that exits 0 each \
+         redo-ifchange at -j1..4); four in ten: the histories of the C02 (dropped/shadowed dependencies, \
+         default rules), C03 (checksum chains, stamp toggling), C13 (rule placement in a directory chain), \
+         C14 (ifcreate idiom, shared always-targets) and C17 (hand edits, queries) generators; under seeded schedules; after every command that exits 0 each \
          non-source file in the from-scratch closure of the requested targets must equal eval(); \
          non-trivial = at least one preemption and one script execution; distinct = (scenario, \
          preemption signature)"
     }
-    fn generate(&self, rng: &mut Rng, seed: u64, _tier: Tier, _index: u64) -> Case {
-        c01_case(rng, seed, "C01")
+    fn generate(&self, rng: &mut Rng, seed: u64, tier: Tier, index: u64) -> Case {
+        // Staleness is judged by one universal oracle, so four runs in ten take
+        // their history from the generators of the properties whose mechanisms
+        // C01 rests on (dropped and shadowed dependencies, checksum chains,
+        // rule placement, ifcreate/always, hand edits with queries in between).
+        let mut c = match index % 10 {
+            1 => c02::C02.generate(rng, seed, tier, index),
+            3 => c03::C03.generate(rng, seed, tier, index),
+            5 => c13::C13.generate(rng, seed, tier, index),
+            // C14 alternates its two families on index % 4
+            7 => c14::C14.generate(rng, seed, tier, index / 10),
+            9 => c17::C17.generate(rng, seed, tier, index),
+            _ => return c01_case(rng, seed, "C01"),
+        };
+        c.property = "C01".into();
+        c
     }
     fn check(&self, case: &Case, rec: &RunRecord, _obs: &dyn Observer) -> Vec<Violation> {
         let mut v = Vec::new();
@@ -85,6 +101,9 @@ impl Property for C01 {
                     continue;
                 }
                 let cmd = &g.cmds[k];
+                if !matches!(cmd.prog(), "redo" | "redo-ifchange") {
+                    continue;
+                }
                 let ts: Vec<String> = cmd
                     .targets()
                     .iter()
@@ -100,8 +119,9 @@ impl Property for C01 {
         let _ = case;
         v
     }
-    fn probes(&self, _case: &Case, rec: &RunRecord) -> BTreeMap<String, u64> {
+    fn probes(&self, case: &Case, rec: &RunRecord) -> BTreeMap<String, u64> {
         let mut m = BTreeMap::new();
+        m.insert(format!("family_{}", case.scenario.family), 1);
         for g in &rec.groups {
             if g.procs.iter().any(|p| p.name == "redo-unlocked") {
                 *m.entry("out_of_band_path_taken".to_string()).or_insert(0) += 1;
